@@ -65,6 +65,8 @@ structure Prog where
   kind : Kind := .flow
   stream : String := "wf"
   quirk : String := "-"            -- source-level peculiarity (e.g. invokevar: a cff.Invoke argument is not a constant)
+  sigP : String := "-"             -- sig-shape: parameter kinds of one task's function (c/v, trailing V = variadic)
+  sigR : String := "-"             -- sig-shape: result kinds (v/e)
   params : List Ty := []
   results : List Ty := []
   tasks : List Task := []          -- in listing (source) order; `k` is the identity
@@ -137,7 +139,9 @@ def pairs (s : String) : List (List String) :=
 /-- Apply one `P <pid> ...` line to the program being assembled. -/
 def Prog.addLine (p : Prog) (toks : List String) : Prog :=
   match toks with
-  | "P" :: _ :: "meta" :: rest => { p with stream := (kv rest "stream").getD "wf", quirk := (kv rest "quirk").getD "-" }
+  | "P" :: _ :: "meta" :: rest =>
+    { p with stream := (kv rest "stream").getD "wf", quirk := (kv rest "quirk").getD "-",
+             sigP := (kv rest "psig").getD "-", sigR := (kv rest "rsig").getD "-" }
   | "P" :: _ :: "params" :: rest => { p with params := rest.filterMap String.toNat? }
   | "P" :: _ :: "results" :: rest => { p with results := rest.filterMap String.toNat? }
   | "P" :: _ :: "task" :: k :: rest =>
